@@ -34,7 +34,7 @@ Definition bits (v : luaversion) : option dialect :=
 Definition lua_version (vs : list luaversion) : dialect * list luaversion :=
   fold_left (fun acc v => match bits v with
                           | Some d => (dor (fst acc) d, snd acc)
-                          | None => (fst acc, (snd acc ++ [v])%list)
+                          | None => (fst acc, (snd acc ++ [v]))
                           end) vs (d51, []).
 
 (** Dialect-specific constructs (the matrix named by the property, plus two more rows). *)
